@@ -525,6 +525,49 @@ def run(eng, ctx, layout_only=False):
 
     # a per-satellite entry of the map the PRN consumer reads must not wait for a cell bit: NSAT counts every set satellite bit, whether or not any
     # of the satellite's cells is set, so an entry made only under a test of the cell mask is missing for a satellite whose cell row is empty
+    # a scan may not be made to depend on ANOTHER mask: the satellite map is needed whenever a satellite bit is set, whether or not any signal or cell
+    # is (the per-satellite groups repeat NSAT times regardless), so a path condition of a scan's recording step that tests another mask or its count
+    # (an early `return` when NCELL is 0, `if nsig:` around the satellite scan) loses labels for legal messages
+    def _nonzero_subject(c):
+        """name of the field / counter a condition tests for being non-zero (positive reading), else None"""
+        if c[0] == "cmp" and c[1] in ("!=", ">") and is_const(c[3]) and c[3][1] == 0:
+            c = c[2]
+        if c[0] == "truth":
+            c = c[1]
+        return _mask_field(c)
+
+    own = {sat_field: {sat_field, T.const.get("NSAT")}, sig_field: {sig_field, T.const.get("NSIG")}}
+    others_all = {sat_field, sig_field, cell_field, T.const.get("NSAT"), T.const.get("NSIG"), T.const.get("NCELL")} - {None}
+    for fld in (sat_field,):  # (the signal labels are used for the cells only: skipping that scan when there is no cell changes nothing)
+        sc_ = scans.get(fld)
+        if not sc_:
+            continue
+        recs = [e for e in sc_["effects"] if e.kind == "setitem" or (e.kind == "call" and e.term[2][0] == "attr" and e.term[2][2] == "append")]
+        for e in recs[:1]:
+            for c, pol in e.guards:
+                if c == sc_["test"]:
+                    continue
+                subj = _nonzero_subject(c) if pol else None
+                if subj is not None and subj in others_all - own[fld]:
+                    real_ctx.bad("C09.D2", mb.qualname, f"scan of {fld} runs whatever the other masks hold", expected=f"labels recorded for every set bit of {fld}",
+                                 found=f"the scan is skipped unless `{show(c)[:50]}`: a message with set bits in {fld} and {subj} = 0 gets no labels, although the groups repeated by this mask's count are still decoded", **eng.loc(mb, e.node))
+
+    # which group drives which label: the consumers index the maps by the repetition index of the enclosing group, so a satellite label field must sit
+    # in a group repeated NSAT times and a cell label field in a group repeated NCELL times (one level deep) - in every MSM definition
+    want_ctr = {T.type_consts["PRN"]: T.const.get("NSAT"), T.type_consts["CELPRN"]: T.const.get("NCELL"), T.type_consts["CELSIG"]: T.const.get("NCELL")}
+    nlab = 0
+    for ident_, d_ in sorted(T.tables["RTCM_PAYLOADS_GET_MSM"].items()):
+        gcount = {}
+        for o_ in T.walk(ident_, d_):
+            if o_.kind == "group":
+                gcount[o_.path + (o_.key,)] = o_.count
+            elif o_.kind == "field" and (T.fields.get(o_.key) or (None,))[0] in want_ctr:
+                nlab += 1
+                typ_ = T.fields[o_.key][0]
+                drv = gcount.get(o_.path) if o_.path else None
+                real_ctx.check(o_.depth == 1 and drv == want_ctr[typ_], "C09.D2", f"definition {ident_}", f"group of label field {o_.key}", expected=f"one repeating group, repeated {want_ctr[typ_]} times",
+                          found=f"depth {o_.depth}, repeated {drv!r} times" if o_.path else "not in a repeating group", file=eng.repo.relpath(o_.prov[0]) if o_.prov[0] else eng.repo.relpath("rtcmtypes_get_msm"), line=o_.prov[1])
+    ctx.instance("label fields in MSM definitions", nlab, 100)
     tc0 = T.type_consts
     satf = None  # the instance field the PRN consumer reads
     for typ_, leaf_, _e in derived_consumers(eng)[0]:
@@ -545,7 +588,7 @@ def run(eng, ctx, layout_only=False):
                  and not (_loops_of(e.target[2]) - set(sc_["loop"]))]
         if gated and len(gated) == len(into):
             e = gated[0]
-            ctx.bad("C09.D2", mb.qualname, f"entry of self.{satf} for a set bit of {sat_field}", expected=f"one entry per set satellite bit, whatever {cell_field} holds (NSAT counts the satellite either way)",
+            real_ctx.bad("C09.D2", mb.qualname, f"entry of self.{satf} for a set bit of {sat_field}", expected=f"one entry per set satellite bit, whatever {cell_field} holds (NSAT counts the satellite either way)",
                     found=f"the only store into self.{satf} is made under a test of {cell_field} inside the inner loop: a satellite none of whose cells is set gets no entry, and the PRN lookup for a later ordinal misses", **eng.loc(mb, e.node))
 
     # a walk over the constellation's own table (`for sid, prn in table.items()`, or the same as a comprehension) that numbers what it finds by the
